@@ -103,14 +103,14 @@ def case_batch(batch, wctx):
 
 def run(ctx):
     quick = ctx.tier == "quick"
-    n = 240 if quick else 8000
+    n = G.QUICK_N.get(ctx.prop, 240) if quick else 8000
     per = 15 if quick else 250
     ctx.rule = ("1-4 unpositioned str/File/list/MultiInputObj fields (plain, bare, templated, sep, '...') + list "
                 "append_args, values = strings of 1-6 chars over a hostile alphabet (also as real file names); each "
                 "task really executes vp/fakes/dumpargv; non-trivial = some supplied element contains a "
                 "space/tab/quote/backslash/$/*/; ; distinct = distinct case spec")
     cases = [{"lo": i, "hi": min(n, i + per)} for i in range(0, n, per)]
-    ctx.record_all(ctx.pmap("vp.props.c23:case_batch", cases, nproc=G.NPROC, timeout=150 if quick else 2400))
+    ctx.record_all(ctx.pmap("vp.props.c23:case_batch", cases, nproc=G.NPROC, timeout=300 if quick else 2400))
     ctx.assumptions = ["append_args given as a string is documented to be shell-split and is excluded",
                        "'' values are MAY; argv differences that leave every element intact belong to C22"]
 
